@@ -425,6 +425,22 @@ impl TopicCache {
 // -----------------------------------------------------------------------
 // -----------------------------------------------------------------------
 
+// Verification hook: read-only view of the reliable hand-over markers and of the cache size.
+#[cfg(rustdds_verif)]
+impl TopicCache {
+  pub(crate) fn verif_reliable_before(&self, writer: GUID) -> Option<SequenceNumber> {
+    self.received_reliably_before.get(&writer).copied()
+  }
+
+  pub(crate) fn verif_keep_limits(&self) -> (Option<i32>, i32) {
+    let min_keep = match self.min_keep_samples {
+      History::KeepAll => None,
+      History::KeepLast { depth } => Some(depth),
+    };
+    (min_keep, self.max_keep_samples)
+  }
+}
+
 #[cfg(test)]
 mod tests {
   use std::{
